@@ -42,7 +42,7 @@ Proof.
             | x :: la', y :: lb' => doc_eqb x y && arr la' lb'
             | _, _ => false
             end) la lb = arr_eqb la lb).
-  { induction la as [|x la IH]; intros [|y lb]; try reflexivity. cbn [arr_eqb]. rewrite IH. reflexivity. }
+  { induction la as [|x la IH]; intros [|y lb]; reflexivity. }
   assert (G2 : forall la, (fix obj (la : list node) : bool :=
             match la with
             | [] => true
@@ -55,7 +55,7 @@ Proof.
                 | None => false
                 end
             end) la = obj_eqb (n_children b) la).
-  { induction la as [|x la IH]; [reflexivity|]. cbn [obj_eqb]. rewrite IH. reflexivity. }
+  { induction la as [|x la IH]; [reflexivity|]. cbn [obj_eqb]. rewrite <- IH. reflexivity. }
   rewrite G1, G2. reflexivity.
 Qed.
 
@@ -184,6 +184,9 @@ Proof.
   - apply IH. cbn in H. inversion H. reflexivity.
 Qed.
 
+Lemma Forall2_len {A B} (R : A -> B -> Prop) l1 l2 : Forall2 R l1 l2 -> length l1 = length l2.
+Proof. induction 1; cbn; congruence. Qed.
+
 Lemma walk_decides ca cb ra rb :
   keyed_children ca -> keyed_children cb -> NoDup (map n_key ca) -> NoDup (map n_key cb) ->
   Permutation ca ra -> Permutation cb rb -> StronglySorted kle ra -> StronglySorted kle rb ->
@@ -196,13 +199,13 @@ Proof.
   assert (Nrb : NoDup (map n_key rb)) by (eapply Permutation_NoDup; [apply Permutation_map; exact Pb | exact Nb]).
   apply eq_true_iff_eq. rewrite walkb_iff, andb_true_iff, Nat.eqb_eq, obj_eqb_iff. split.
   - intro F. split.
-    + rewrite (Permutation_length Pa), (Permutation_length Pb). eapply Forall2_length; exact F.
+    + rewrite (Permutation_length Pa), (Permutation_length Pb). eapply Forall2_len; exact F.
     + rewrite Forall_forall. intros x Hx.
       assert (Hxr : In x ra) by (eapply Permutation_in; eassumption).
       destruct (Forall2_in_l _ _ _ _ F Hxr) as (y & Hy & [C D]).
       assert (Hyc : In y cb) by (eapply Permutation_in; [apply Permutation_sym; exact Pb | exact Hy]).
       destruct (keyed_in _ _ Ka Hx) as (k & Ek & Hk).
-      apply keyed_cmp0 in C; [|eapply keyed_in; eassumption | eapply keyed_in; eassumption].
+      apply keyed_cmp0 in C; [|exact (keyed_in _ _ Ka Hx) | exact (keyed_in _ _ Kb Hyc)].
       destruct (find_key_of_in k cb 0%nat y Hyc ltac:(congruence)) as (j & y' & Fk).
       destruct (find_key_in _ _ _ _ Fk) as [Hy' Ey'].
       assert (y' = y) by (apply (nodup_key_inj cb); try assumption; congruence). subst y'.
@@ -226,7 +229,7 @@ Proof.
     eapply Forall2_strengthen; [exact Hk|]. intros x y Hx Hy Exy. cbn beta in Exy.
     assert (Hxc : In x ca) by (eapply Permutation_in; [apply Permutation_sym; exact Pa | exact Hx]).
     assert (Hyc : In y cb) by (eapply Permutation_in; [apply Permutation_sym; exact Pb | exact Hy]).
-    split; [apply keyed_cmp0; [eapply keyed_in; eassumption | eapply keyed_in; eassumption | exact Exy]|].
+    split; [apply keyed_cmp0; [exact (keyed_in _ _ Ka Hxc) | exact (keyed_in _ _ Kb Hyc) | exact Exy]|].
     destruct (Hp x Hxc) as (k & j & y' & Ek & Fk & D). destruct (find_key_in _ _ _ _ Fk) as [Hy' Ey'].
     assert (y' = y) by (apply (nodup_key_inj cb); try assumption; congruence). subst y'. exact D.
 Qed.
@@ -257,11 +260,11 @@ Proof.
     { destruct (cmp_arr_spec (fun x y => compare_json f x y true) ca (n_children b)) as (la' & lb' & E & F2).
       - apply (dwf_children _ Ha).
       - apply (dwf_children _ Hb).
-      - intros x y Hx Hdx Hdy. apply IH; try assumption. pose proof (depth_child _ x Hx). cbn [n_children] in *. lia.
+      - intros x y Hx Hdx Hdy. apply IH; try assumption. pose proof (depth_child (Node ty vs vi vd k ca) x Hx). lia.
       - rewrite E. cbn [bind]. do 2 eexists. split; [reflexivity|]. split; [|reflexivity].
         cbn [set_children]. apply doc_eq_head; try assumption.
         + intros _. eapply Forall2_impl'; [|exact F2]. intros ? ? [H _]. exact H.
-        + intro Ho. congruence. }
+        + intro Ho. rewrite Ea in Ho. discriminate Ho. }
     destruct (Z.eqb_spec (tymask ty) c_cJSON_Object) as [Eo|Eo].
     2:{ do 2 eexists. split; [reflexivity | split; [exact Rf | reflexivity]]. }
     destruct (Ov Eo) as [Na Ka].
@@ -277,7 +280,7 @@ Proof.
       pose proof (depth_child (Node ty vs vi vd k ca) x H). lia. }
     rewrite E. cbn [bind]. rewrite (walk_decides ca (n_children b) ra rb Ka Kb Na Nb Pa Pb Sa Sb).
     do 2 eexists. split; [reflexivity|]. split; [|reflexivity].
-    cbn [set_children]. apply doc_eq_head; try assumption; [intro; congruence|]. intros _.
+    cbn [set_children]. apply doc_eq_head; try assumption; [intro Ha'; rewrite Eo in Ha'; discriminate Ha'|]. intros _.
     assert (F3 : Forall2 mrel ra' ra).
     { eapply Forall2_strengthen; [exact F2|]. intros x' x _ Hx [D Kk]. split; [|split; assumption].
       rewrite Kk. eapply keyed_key_some; [eapply keyed_perm; [exact Pa | exact Ka] | exact Hx]. }
